@@ -358,6 +358,7 @@ func c01Attacks() []attack {
 			x.resp.Decl = append(x.resp.Decl, [2]string{"ds", "urn:evil"})
 		}},
 		{"keyinfo-removed", func(x *c01x) { x.eachSig(func(s *Node) { s.SetKeyInfo(kiNone, 0) }) }},
+		{"keyinfo-certificate-text-wrapped", func(x *c01x) { x.outerSig(func(s *Node) { s.WrapKeyInfoCert() }) }},
 		{"keyinfo-keyvalue-only", func(x *c01x) { x.eachSig(func(s *Node) { s.SetKeyInfo(kiEmpty, 0) }) }},
 		{"keyinfo-untrusted-cert", func(x *c01x) { x.eachSig(func(s *Node) { s.SetKeyInfo(kiCert, 9) }) }},
 		{"keyinfo-other-idp-cert", func(x *c01x) { x.eachSig(func(s *Node) { s.SetKeyInfo(kiCert, 1-x.signerOr0()) }) }},
@@ -458,6 +459,20 @@ func c01Attacks() []attack {
 	}
 }
 
+// outerSig applies f to the outermost genuine signature only (inner Signature bytes are covered by the outer digest)
+func (x *c01x) outerSig(f func(s *Node)) {
+	switch {
+	case x.ar != nil && firstSig(x.ar) != nil:
+		f(firstSig(x.ar))
+	case firstSig(x.resp) != nil:
+		f(firstSig(x.resp))
+	case firstSig(x.a) != nil:
+		b := x.a.Clone()
+		f(firstSig(b))
+		x.replaceSlot(x.cand(b))
+	}
+}
+
 func (x *c01x) signerOr0() int {
 	if x.signer == 1 {
 		return 1
@@ -512,6 +527,10 @@ func c01Trusts() []struct {
 		{"meta-ecdsa-signing", func(c *Cfg) { c.Trust, c.Kds = tMeta, []KD{{"signing", []int{3}}} }},
 		{"meta-rsa+ecdsa-signing", func(c *Cfg) { c.Trust, c.Kds = tMeta, []KD{{"signing", []int{0}}, {"signing", []int{3}}} }},
 		{"pinned-ecdsa", func(c *Cfg) { c.Trust, c.C = tPinned, 3 }},
+		{"meta-wrapped-certificate-text", func(c *Cfg) { c.Trust, c.Kds, c.CertLayout = tMeta, []KD{{"signing", []int{0}}, {"", []int{1}}}, 1 }},
+		{"meta-crlf-tab-certificate-text", func(c *Cfg) { c.Trust, c.Kds, c.CertLayout = tMeta, []KD{{"signing", []int{0}}}, 2 }},
+		{"pinned-wrapped-certificate-text", func(c *Cfg) { c.Trust, c.C, c.CertLayout = tPinned, 0, 1 }},
+		{"pinned-padded-certificate-text", func(c *Cfg) { c.Trust, c.C, c.CertLayout = tPinned, 0, 3 }},
 		{"meta-other-roles-publish-keys", func(c *Cfg) { c.Trust, c.Kds, c.OtherRoleCerts = tMeta, []KD{{"signing", []int{0}}}, []int{1, 2, 9} }},
 		{"meta-only-other-roles-publish-keys", func(c *Cfg) { c.Trust, c.Kds, c.OtherRoleCerts = tMeta, []KD{{"encryption", []int{2}}}, []int{1, 0, 9} }},
 		{"pinned", func(c *Cfg) { c.Trust, c.C = tPinned, 0 }},
@@ -570,7 +589,7 @@ func runC01(c *Ctx) {
 		}
 	}
 	// trust configurations x who signed x key-related attacks
-	keyAttacks := []string{"none", "attacker-signed-evil-keyinfo-attacker-then-idp-cert", "attacker-signed-evil-keyinfo-idp-then-attacker-cert", "keyinfo-extra-certificates", "keyinfo-removed", "keyinfo-keyvalue-only", "keyinfo-untrusted-cert", "keyinfo-other-idp-cert", "keyinfo-garbage", "attacker-signed-evil-claims-idp-cert", "foreign-ns-signature-sibling"}
+	keyAttacks := []string{"none", "keyinfo-certificate-text-wrapped", "attacker-signed-evil-keyinfo-attacker-then-idp-cert", "attacker-signed-evil-keyinfo-idp-then-attacker-cert", "keyinfo-extra-certificates", "keyinfo-removed", "keyinfo-keyvalue-only", "keyinfo-untrusted-cert", "keyinfo-other-idp-cert", "keyinfo-garbage", "attacker-signed-evil-claims-idp-cert", "foreign-ns-signature-sibling"}
 	for _, tr := range c01Trusts() {
 		cfg := defaultCfg()
 		tr.set(&cfg)
